@@ -6,8 +6,9 @@ from .values import V
 
 
 class LoopSpec:
-    def __init__(self, inv=None, havoc=(), comp=None, allow_val_writes=False, summary=None):
+    def __init__(self, inv=None, havoc=(), comp=None, allow_val_writes=False, summary=None, fresh_only=False):
         self.inv, self.havoc, self.comp, self.allow_val_writes = inv, tuple(havoc), comp, allow_val_writes
+        self.fresh_only = fresh_only   # the body writes the havocked fields only on objects allocated by this function
         self.summary = summary      # comprehensions: (LoopCtx, j) -> list of V terms the element must equal
 
 
@@ -18,7 +19,7 @@ class Contract:
 
     def __init__(self, qual, pre=None, post=None, raises=(), modifies=(), frame=None, loops=None,
                  result=None, allocates=False, params=None, assumptions=(), trusted=False, doc='',
-                 native=None, gen=None, decreases=None, props=(), defs=None, axioms=None, cases=None):
+                 native=None, gen=None, decreases=None, props=(), defs=None, axioms=None, cases=None, preserves=()):
         self.qual = qual
         self.pre, self.post = pre, post
         self.raises = tuple(raises)
@@ -36,6 +37,7 @@ class Contract:
         self.decreases = decreases
         self.props = tuple(props)
         self.defs = defs
+        self.preserves = tuple(preserves)   # heap-implicit predicates whose ground atoms survive this call
         self.cases = cases        # (cx) -> exhaustive list of Bools; the body is verified once per case
         self.axioms = axioms      # definitional facts (spec unfoldings) assumed on both sides
 
